@@ -197,8 +197,16 @@ func Encode(val interface{}, opts Options) ([]byte, error) {
 // EncodeInto is like Encode but uses a user-supplied buffer instead of allocating
 // a new one.
 func EncodeInto(buf *[]byte, val interface{}, opts Options) error {
+	old := len(*buf)
 	err := encodeIntoCheckRace(buf, val, opts)
 	if err != nil {
+		return err
+	}
+	if old > 0 && old <= len(*buf) {
+		// NOTICE: the post-passes (HTML escaping, UTF-8 correction) must only see what was
+		// appended, not the bytes the caller already had in the buffer
+		tail := encodeFinish((*buf)[old:], opts)
+		*buf = append((*buf)[:old], tail...)
 		return err
 	}
 	*buf = encodeFinish(*buf, opts)
